@@ -222,7 +222,15 @@ def _run(D):
             ledger = [(i, i.population_id, list(i.vector), list(i.costs)) for i in p.individuals]
         if ledger and all(len(l[3]) == len(ledger[0][3]) and len(l[3]) > 0 for l in ledger):
             tags = [l[1] for l in ledger]
-            check_queries(ctx, p, ledger, tags)
+            try:
+                with W.quiet():
+                    check_queries(ctx, p, ledger, tags)
+            except (kernel.Deadlock, kernel.StepCap):
+                raise
+            except Exception as e:
+                if type(e).__name__ == 'HarnessError':
+                    raise
+                ctx.violation('unexpected_exception', 'Results', 'a query raised %r on the recorded history of a %s run' % (e, info.kind))
             if not ctx.violations:
                 front = [l[3] for l in ledger if l[1] == max(tags)]
                 check_indicators(ctx, D, front, 'run')
